@@ -614,3 +614,120 @@ Example C02_cut_rename_example :
     In {| ev_cls := DirMoved; ev_src := sub pR 97; ev_dest := sub pR 98; ev_synth := false |} (p_out sc) /\
     k_queue (p_k sc) = [] /\ Cover (cfgx true true) (w_fs (p_world sc)) (p_k sc) (p_r sc).
 Proof. exact cut_rename_example. Qed.
+
+(* ================================================================== directory move-outs back to back *)
+(* PJ = the move-out candidate is pending (POut) up to IN_IGNORED junk in the kernel queue.  The first record of the next
+   batch - junk, or the first record of the next operation - forgets the departed sub-tree, and the rest of the batch is
+   processed exactly as from the synchronised state (kC0, rC) in which it is already forgotten, WHATEVER the operation is
+   (C02_pending_transfer; hypotheses: the operation notifies no directory at or below the departed directory's new place,
+   and the batch is not empty).  Instances: a covered operation (C02_pending_step_junk) and ANOTHER directory move-out
+   (C02_out_after_out: the second candidate is pending, the first one's descriptors are junk). *)
+Theorem C02_pending_transfer : forall C, c_fix_moveout C = true -> forall w k r h c p o t' r2 k2 evs, PJ C w k r h c p ->
+  (forall d, In d (notified o) -> blw h d = false) ->
+  let k1 := kernel_op k (w_fs w) o in k_queue k1 <> [] ->
+  let rC := fst (forget_tree (wfp r) p (rclr r) (kset_queue k [])) in
+  let kC0 := kset_queue (snd (forget_tree (wfp r) p (rclr r) (kset_queue k []))) [] in
+  read_batch C t' (rC, drainq (kernel_op kC0 (w_fs w) o), []) (k_queue (kernel_op kC0 (w_fs w) o)) = Done (r2, k2, evs) ->
+  k_queue k2 = [] ->
+  exists kb, read_batch C t' (r, drainq k1, []) (k_queue k1) = Done (r2, kb, evs) /\ kset_queue kb [] = k2 /\
+             Forall (junk_ev kb r2) (k_queue kb).
+Proof. exact pj_transfer. Qed.
+Print Assumptions C02_pending_transfer.
+
+Theorem C02_pending_step_junk : forall C, c_faults C = [] -> c_fix_moveout C = true -> forall w k r h c p o w',
+  mask_ok C -> PJ C w k r h c p -> covered_op C w o ->
+  (forall d, In d (notified o) -> blw h d = false) -> apply_op w o = Some w' ->
+  let k1 := kernel_op k (w_fs w) o in k_queue k1 <> [] ->
+  exists r' k' evs, read_batch C (w_fs w') (r, drainq k1, []) (k_queue k1) = Done (r', k', evs) /\
+    JSync C w' k' r' /\ Forall (rsafe C) evs.
+Proof. exact pj_step. Qed.
+Print Assumptions C02_pending_step_junk.
+
+Theorem C02_out_after_out : forall C, c_fix_moveout C = true -> forall w k r h c p p2 q2 w' ep,
+  mask_ok C -> PJ C w k r h c p ->
+  npath p2 -> npath q2 -> c_recursive C = true -> apply_op w (Rename p2 q2) = Some w' ->
+  flookup p2 (w_fs w) = Some ep -> f_dir ep = true -> scope C p2 -> p2 <> c_root C -> ~ scope C q2 ->
+  (forall d, In d (notified (Rename p2 q2)) -> blw h d = false) ->
+  let k1 := kernel_op k (w_fs w) (Rename p2 q2) in k_queue k1 <> [] ->
+  exists r' k' evs, read_batch C (w_fs w') (r, drainq k1, []) (k_queue k1) = Done (r', k', evs) /\
+    PJ C w' k' r' q2 (k_next_cookie k) p2 /\ Forall (rsafe C) evs.
+Proof. exact pj_out_step. Qed.
+Print Assumptions C02_out_after_out.
+
+(* histories: ops_x2 = ops_x where the operation right after a directory move-out may be another directory move-out (of a
+   directory of the tree, to a place that is not inside the directory that has just left); invariant GS2 (JSync / PJ).
+   Every history of C02_cover_sequential_partial is one of these (C02_ops_x_x2). *)
+Theorem C02_cover_sequential_x2_partial : forall C, c_faults C = [] -> c_fix_moveout C = true -> c_mask C = WATCHDOG_ALL ->
+  forall ops w k r hot, GS2 C w k r hot -> ops_x2 C w hot ops ->
+  exists w' k' r' hot', rrun C w k r ops = Some (w', k', r') /\ GS2 C w' k' r' hot'.
+Proof. exact cover_sequential_x2. Qed.
+Print Assumptions C02_cover_sequential_x2_partial.
+
+Theorem C02_cover_from_start_x2_partial : forall C, c_faults C = [] -> c_fix_moveout C = true -> forall ops w,
+  c_mask C = WATCHDOG_ALL -> wf_fs w -> fisdir (c_root C) (w_fs w) = true -> ops_x2 C w None ops ->
+  exists r0 k0 w' k' r', construct C kinit (w_fs w) = Some (r0, k0) /\ rrun C w k0 r0 ops = Some (w', k', r') /\
+                         wf_fs w' /\ Cover C (w_fs w') k' r'.
+Proof. exact cover_from_start_x2. Qed.
+Print Assumptions C02_cover_from_start_x2_partial.
+
+Theorem C02_cover_sequential_pipeline_x2_partial : forall P, let C := pc_reader P in
+  c_faults C = [] -> c_fix_moveout C = true -> c_mask C = WATCHDOG_ALL -> pc_filter P = None ->
+  forall ops s hot, PSx2 P s hot -> ops_x2 C (p_world s) hot ops ->
+  exists h s' obs hot', block_hist_x P s ops h /\ prun P s h [] = Done (s', obs) /\ PSx2 P s' hot' /\
+    Cover C (w_fs (p_world s')) (p_k s') (p_r s').
+Proof. exact blocks_cover_x2. Qed.
+Print Assumptions C02_cover_sequential_pipeline_x2_partial.
+
+Theorem C02_ops_x_x2 : forall C ops w hot, ops_x C w hot ops -> ops_x2 C w hot ops.
+Proof. exact ops_x_x2. Qed.
+Print Assumptions C02_ops_x_x2.
+
+(* mkdir R/a; mkdir R/b; mv R/a O/x; mv R/b O/y (two move-outs back to back); mkdir R/a; mv R/a R/b *)
+Definition two_out_ops : list op :=
+  [Mkdir (sub pR 97); Mkdir (sub pR 98); Rename (sub pR 97) (sub pO 120); Rename (sub pR 98) (sub pO 121);
+   Mkdir (sub pR 97); Rename (sub pR 97) (sub pR 98)].
+
+Example C02_two_out_ops_x2 : ops_x2 (cfgo true) w0 None two_out_ops.
+Proof.
+  assert (GR : gpath pR) by (split; [discriminate | reflexivity]).
+  assert (GO : gpath pO) by (split; [discriminate | reflexivity]).
+  assert (Na : forall n, valid_name [n] = true -> npath (sub pR n)) by (intros; now apply npath_sub).
+  assert (No : forall n, valid_name [n] = true -> npath (sub pO n)) by (intros; now apply npath_sub).
+  assert (NS : forall p, ~ scope (cfgo true) (sub pO p)) by (intros p [H|H]; vm_compute in H; discriminate).
+  assert (X2 : forall w o w' ops hot, apply_op w o = Some w' -> step_ok2 (cfgo true) w hot o ->
+                 ops_x2 (cfgo true) w' (is_dir_out (cfgo true) w o) ops -> ops_x2 (cfgo true) w hot (o :: ops)).
+  { intros w o w' ops hot Ha Hs Hc. cbn [ops_x2]. rewrite Ha. now split. }
+  unfold two_out_ops.
+  eapply X2; [vm_compute; reflexivity | apply cx_op, co_mkdir; now apply Na |]. vm_compute is_dir_out.
+  eapply X2; [vm_compute; reflexivity | apply cx_op, co_mkdir; now apply Na |]. vm_compute is_dir_out.
+  eapply X2; [vm_compute; reflexivity | |].
+  { eapply cx_out; try (now apply Na); try (now apply No); try reflexivity; try (vm_compute; reflexivity);
+      try (right; vm_compute; reflexivity); try (vm_compute; discriminate). apply NS. }
+  vm_compute is_dir_out.
+  eapply X2; [vm_compute; reflexivity | |].
+  { split; [|split].
+    - eapply cx_out; try (now apply Na); try (now apply No); try reflexivity; try (vm_compute; reflexivity);
+        try (right; vm_compute; reflexivity); try (vm_compute; discriminate). apply NS.
+    - exists pR. split; [now left|]. split; [now left | reflexivity].
+    - intros d [<-|[<-|[<-|[]]]]; vm_compute; reflexivity. }
+  vm_compute is_dir_out.
+  eapply X2; [vm_compute; reflexivity | |].
+  { split; [apply cx_op, co_mkdir; now apply Na|]. split.
+    - exists pR. split; [now left|]. split; [now left | reflexivity].
+    - intros d [<-|[]]. vm_compute. reflexivity. }
+  vm_compute is_dir_out.
+  eapply X2; [vm_compute; reflexivity | |].
+  { apply cx_op. eapply co_rename_dir; try (now apply Na); try reflexivity; try (vm_compute; reflexivity);
+      try (right; vm_compute; reflexivity); try (vm_compute; discriminate). }
+  exact I.
+Qed.
+
+(* hence (instance of the theorem) Cover holds at the end; computed: both departed directories have lost their watches *)
+Example C02_two_out_instance :
+  exists r0 k0 w' k' r', construct (cfgo true) kinit (w_fs w0) = Some (r0, k0) /\ rrun (cfgo true) w0 k0 r0 two_out_ops = Some (w', k', r') /\
+                         wf_fs w' /\ Cover (cfgo true) (w_fs w') k' r'.
+Proof. exact (C02_cover_from_start_x2_partial (cfgo true) eq_refl eq_refl two_out_ops w0 eq_refl w0_wf eq_refl C02_two_out_ops_x2). Qed.
+
+Example C02_two_out_computed :
+  exists w' k' r', run_ops (cfgo true) two_out_ops = Some (w', k', r') /\ length (k_watches k') = 2%nat /\ pend r' = None.
+Proof. eexists _, _, _. split; [vm_compute; reflexivity|]. split; reflexivity. Qed.
